@@ -189,6 +189,7 @@ static bool runChild(const Family* fam, uint64_t seed, const std::string& tier, 
     close(po[0]);
     close(pe[0]);
     dup2(pe[1], 2);
+    dup2(pe[1], 1);   // the code under test may print to stdout (verbose CSV errors); keep it out of the result channel
     close(pe[1]);
     g_resultFd = po[1];
     plan::Plan p = fam->generate(seed, tier);
@@ -228,6 +229,13 @@ static bool runChild(const Family* fam, uint64_t seed, const std::string& tier, 
   if (*timedOut) kill(pid, SIGKILL);
   for (int i = 0; i < 2; i++) if (fds[i].fd >= 0) close(fds[i].fd);
   while (waitpid(pid, status, 0) < 0 && errno == EINTR) {}
+  if (*timedOut || !WIFEXITED(*status) || WEXITSTATUS(*status) != 0) {
+    // a run that did not end regularly may have left its scratch directory behind
+    char cmd[256];
+    const char* base = getenv("VERIF_SCRATCH");
+    snprintf(cmd, sizeof(cmd), "rm -rf '%s/%d'", base ? base : "/verif/build/scratch", static_cast<int>(pid));
+    if (system(cmd) != 0) { /* ignore */ }
+  }
   return true;
 }
 
@@ -300,7 +308,7 @@ static int workerMain(int argc, char** argv) {
     if (budget > 0 && nowSec() - t0 > budget) break;
     uint64_t idx = from + k * step;
     const Family* fam = fl[idx % fl.size()];
-    uint64_t rs = runSeed(seed, fam, idx / fl.size());
+    uint64_t rs = runSeed(seed, fam, idx);   // a family may be listed more than once (weight): the seed depends on the global index
     std::string out, err;
     int status = 0;
     bool to = false;
